@@ -192,20 +192,27 @@ theorem activate_wf {now : Int} {up act up' act' : Refs} (hu : RefsWF up) (ha : 
         rw [← h.2]
         exact ih hu.2.2 ha hx
 
-theorem finishLoop_wf {snap : List Gauge} {act fin act' fin' : Refs} (ha : RefsWF act)
-    (h : finishLoop snap act fin = some (act', fin')) : RefsWF act' := by
+theorem finishLoop_wf {store snap : List Gauge} {act fin act' fin' : Refs} (ha : RefsWF act)
+    (h : finishLoop store snap act fin = some (act', fin')) : RefsWF act' := by
   induction snap generalizing act fin with
   | nil => simp only [finishLoop, Option.some.injEq, Prod.mk.injEq] at h; rw [← h.1]; exact ha
   | cons g gs ih =>
     simp only [finishLoop] at h
     split at h
-    · cases hd : refsDel act g.start g.id with
-      | none => rw [hd] at h; cases h
-      | some a1 =>
-        rw [hd] at h
-        cases hx : refsAdd fin g.start g.id with
-        | none => rw [hx] at h; cases h
-        | some f1 => rw [hx] at h; exact ih (refsDel_wf ha hd) h
+    · cases hu : getGauge store g.id with
+      | none => rw [hu] at h; cases h
+      | some u =>
+        rw [hu] at h
+        simp only at h
+        split at h
+        · exact ih ha h
+        · cases hd : refsDel act u.start u.id with
+          | none => rw [hd] at h; cases h
+          | some a1 =>
+            rw [hd] at h
+            cases hx : refsAdd fin u.start u.id with
+            | none => rw [hx] at h; cases h
+            | some f1 => rw [hx] at h; exact ih (refsDel_wf ha hd) h
     · exact ih ha h
 
 /-- both live reference stores are well formed. -/
@@ -270,7 +277,7 @@ theorem WFInv_epoch {s s' : State} {now : Int} {thr : Quotes} {locks : List Lock
         | some bal =>
           rw [hb] at hc
           simp only at hc
-          cases hf : finishLoop snap act s.finished with
+          cases hf : finishLoop store snap act s.finished with
           | none => rw [hf] at hc; cases hc
           | some af =>
             obtain ⟨act', fin⟩ := af
